@@ -57,7 +57,7 @@ theorem first_block (M : Nat) (req : Request) (st : BlockState) (resp : Packet) 
     (hn : negotiate st.lastBlock2 (size + tokenReserve resp) resp.payload.length M = .ok (some rb2)) :
     coreResponse M req st =
       match serveCached req rb2 resp with
-      | (req', .ok true) => (req', { st with cachedResponse := some resp }, .ok true)
+      | (req', .ok true) => (req', { st with cachedResponse := some resp, cachedSzx := some rb2.szx }, .ok true)
       | (req', r) => (req', st, r) :=
   coreResponse_fragment M req st resp size rb2 hr hno hsz hn
 
@@ -106,14 +106,16 @@ theorem follow_up (req : Request) (resp : Packet) (st : BlockState) (b2 : BlockV
     (hb : firstBlock req.message block2Num = some b2) (hc : st.cachedResponse = some cached)
     (hr : req.response = some resp) (hs : resp.options.Sorted) (hcs : cached.options.Sorted)
     (hck : ∀ kv ∈ cached.options, kv.1 ≤ 65535)
-    (hch : chunkAt cached.payload b2.size b2.num = some (chunk, more)) :
+    (hch : chunkAt cached.payload b2.size b2.num = some (chunk, more))
+    (hle : ∀ x, st.cachedSzx = some x → b2.szx ≤ x) :
     ∃ resp', coreRequest M req st =
         ({ req with response := some resp' },
-         { st with lastBlock2 := some b2, cachedResponse := if more then some cached else none }, .ok true) ∧
+         { st with lastBlock2 := some b2, cachedResponse := if more then some cached else none,
+                   cachedSzx := if more then st.cachedSzx else none }, .ok true) ∧
       resp'.payload = chunk ∧ corr resp' = corr resp ∧ resp'.header.code = cached.header.code ∧
       (∃ bs, ({ b2 with more := more } : BlockValue).enc = .ok bs ∧ resp'.getOption block2Num = some [bs]) ∧
       (∀ n, n ≠ block2Num → (cached.getOption n).isSome → resp'.getOption n = cached.getOption n) :=
-  follow_up_served req resp st b2 cached chunk more M size hb1 hsz hn hb hc hr hs hcs hck hch
+  follow_up_served req resp st b2 cached chunk more M size hb1 hsz hn hb hc hr hs hcs hck hch hle
 
 /-- END TO END, the tail of a transfer: a client that fetches blocks `k, k+1, …` of a cached
 response with one follow-up request per block (`IsFollowUp`: a Block2 option naming the block, no
@@ -125,6 +127,7 @@ theorem follow_ups_reassemble (M : Nat) (cached : Packet) (szx : Nat)
     (hcs : cached.options.Sorted) (hck : ∀ kv ∈ cached.options, kv.1 ≤ 65535)
     (reqs : List Request) (k : Nat) (st : BlockState)
     (hst : st.cachedResponse = some cached)
+    (hle : ∀ x, st.cachedSzx = some x → szx ≤ x)
     (hfu : ∀ i (h : i < reqs.length), IsFollowUp M reqs[i] (k + i) szx)
     (hne : reqs ≠ [])
     (hlast : (k + reqs.length - 1) * 2 ^ (szx + 4) < cached.payload.length)
@@ -132,7 +135,7 @@ theorem follow_ups_reassemble (M : Nat) (cached : Packet) (szx : Nat)
     ((fetchAll M reqs st).1.flatMap (·.1)) = cached.payload.drop (k * 2 ^ (szx + 4)) ∧
     (∀ o ∈ (fetchAll M reqs st).1, o.2 = .ok true) ∧
     (fetchAll M reqs st).2.cachedResponse = none :=
-  download_tail M cached szx hcs hck reqs k st hst hfu hne hlast hcover
+  download_tail M cached szx hcs hck reqs k st hst hle hfu hne hlast hcover
 
 /-- … and with block 0 (the first `size` bytes, served with the application's reply, `first_block`
 / `served_block`) the client holds the whole body, byte for byte -/
@@ -140,12 +143,13 @@ theorem whole_body (M : Nat) (cached : Packet) (szx : Nat)
     (hcs : cached.options.Sorted) (hck : ∀ kv ∈ cached.options, kv.1 ≤ 65535)
     (reqs : List Request) (st : BlockState)
     (hst : st.cachedResponse = some cached)
+    (hle : ∀ x, st.cachedSzx = some x → szx ≤ x)
     (hfu : ∀ i (h : i < reqs.length), IsFollowUp M reqs[i] (1 + i) szx)
     (hne : reqs ≠ [])
     (hlast : (1 + reqs.length - 1) * 2 ^ (szx + 4) < cached.payload.length)
     (hcover : cached.payload.length ≤ (1 + reqs.length) * 2 ^ (szx + 4)) :
     cached.payload.take (2 ^ (szx + 4)) ++ ((fetchAll M reqs st).1.flatMap (·.1)) = cached.payload := by
-  rw [(download_tail M cached szx hcs hck reqs 1 st hst hfu hne hlast hcover).1, Nat.one_mul]
+  rw [(download_tail M cached szx hcs hck reqs 1 st hst hle hfu hne hlast hcover).1, Nat.one_mul]
   exact List.take_append_drop _ _
 
 /-- … AT THE LEVEL OF THE HANDLER, with its cache and clock, inside arbitrary traffic: from any
@@ -162,6 +166,7 @@ theorem follow_ups_in_any_history (h : Handler) (t : Nat) (evs : List Ev) (κ : 
     (hreqs : ∀ e ∈ evs.filter (fun e => e.key = κ), e.isResp = false)
     (hcs : cached.options.Sorted) (hck : ∀ kv ∈ cached.options, kv.1 ≤ 65535)
     (hc : st.cachedResponse = some cached)
+    (hle : ∀ x, st.cachedSzx = some x → szx ≤ x)
     (reqs : List Request) (hκ : (evs.filter (fun e => e.key = κ)).map (·.req) = reqs)
     (hfu : ∀ i (hlt : i < reqs.length), IsFollowUp h.maxSize reqs[i] (k + i) szx)
     (hne : reqs ≠ [])
@@ -170,7 +175,7 @@ theorem follow_ups_in_any_history (h : Handler) (t : Nat) (evs : List Ev) (κ : 
     let obs := ((runEvs h evs).filter (fun o => o.1 = κ)).map (·.2)
     obs.flatMap (fun o => (o.1.response.map (·.payload)).getD []) = cached.payload.drop (k * 2 ^ (szx + 4)) ∧
     ∀ o ∈ obs, o.2 = .ok true :=
-  Block.follow_ups_in_any_history h t evs κ st cached szx k hi hm hsp hst hreqs hcs hck hc reqs hκ hfu hne
+  Block.follow_ups_in_any_history h t evs κ st cached szx k hi hm hsp hst hreqs hcs hck hc hle reqs hκ hfu hne
     hlast hcover
 
 /-- a follow-up request that carries no payload passes the Block1 stage (the `small` clause of
@@ -233,7 +238,8 @@ theorem state_shape_matches_source :
     Shapes.blockHandler = [("config", "BlockHandlerConfig"), ("states", "LruCache<RequestCacheKey<Endpoint>,BlockState>")] ∧
     Shapes.blockHandlerConfig = [("cache_expiry_duration", "Duration"), ("max_total_message_size", "usize")] ∧
     Shapes.requestCacheKey = [("path", "Vec<Vec<u8>>"), ("request_type_ord", "u8"), ("requester", "Option<Endpoint>")] ∧
-    Shapes.blockState = [("cached_request_payload", "Option<Vec<u8>>"), ("cached_response", "Option<Packet>"), ("last_request_block2", "Option<BlockValue>")] ∧
+    Shapes.blockState = [("cached_request_payload", "Option<Vec<u8>>"), ("cached_response", "Option<Packet>"),
+     ("cached_response_size_exponent", "Option<u8>"), ("last_request_block2", "Option<BlockValue>")] ∧
     Shapes.blockValue = [("more", "bool"), ("num", "u16"), ("size_exponent", "u8")] ∧
     Shapes.coapRequest = [("message", "Packet"), ("response", "Option<CoapResponse>"), ("source", "Option<Endpoint>")] ∧
     Shapes.coapResponse = [("message", "Packet")] ∧
